@@ -209,6 +209,40 @@ def run(ctx, prog):
         return None if strip(t) == ('leaf', 'did') else 'foreign DID altered while packing'
     A.require('pack/closure-replaces-only-self-references', paths, r_pack_closure, replay=REPLAY)
 
+    # pack serialises the document it was given with exactly two members cleared - the ledger address fields - and nothing else
+    # touched (no member filled in, defaulted or dropped on the way)
+    f_pk = prog.one(r'state_metadata::document::<impl at [^>]*>::pack$', sig=r'StateMetadataDocument,')
+    pk_paths, pk_ex = A.paths(f_pk)
+    MD = prog.structs['IotaDocumentMetadata']
+    SMD = prog.structs['StateMetadataDocument']
+    cleared = {MD.index('governor_address'), MD.index('state_controller_address')}
+
+    def r_pk(p):
+        if p.kind != 'return':
+            return 'panic ' + p.msg
+        js = [c for c in p.calls if re.search(r'ToJson>::to_json_vec$|to_json_vec$|to_json$', c.name)]
+        if len(js) != 1:
+            return 'the document is not serialised exactly once'
+        overs = [s_ for s_ in subterms(js[0].args[0]) if isinstance(s_, tuple) and s_ and s_[0] == 'over']
+        for o in overs:
+            base = strip(o[1])
+            is_meta = isinstance(base, tuple) and base[0] == 'field' and strip(base[1]) == ('leaf', 'self') and base[2] == SMD.index('metadata')
+            for (key, val) in o[2]:
+                idx = key[1] if isinstance(key, tuple) else key
+                if strip(o[1]) == ('leaf', 'self'):
+                    if idx != SMD.index('metadata'):
+                        return 'pack rewrites the %s of the document it serialises' % SMD[idx]
+                    continue
+                if not is_meta:
+                    return 'pack rewrites something besides the metadata'
+                if idx not in cleared:
+                    return 'pack changes metadata.%s (only the two ledger address fields are cleared)' % MD[idx]
+                v = strip(val)
+                if not (isinstance(v, tuple) and v[0] == 'agg' and str(v[2]) == 'None'):
+                    return 'metadata.%s is not cleared but set to something' % MD[idx]
+        return None
+    A.require('pack/serialises-the-document-with-only-the-ledger-addresses-cleared', pk_paths, r_pk, replay={'scenario': 'state_metadata', 'cex': {'only': '[metadata]'}})
+
 
 PACKED = (('IotaDocumentMetadata', r'iota_document_metadata::_::<impl at [^>]*>::serialize$'),
           ('StateMetadataDocument', r'state_metadata::document::_::<impl at [^>]*>::serialize$'))
@@ -487,3 +521,11 @@ def main(ctx):
     guarded(ctx, 'state metadata framing and rebasing', 'M', lambda: run(ctx, prog))
     guarded(ctx, 'rewriting primitives (map / try_map)', 'M', lambda: maps(ctx))
     guarded(ctx, 'serde skip predicates of the packed structures', 'M', lambda: serde_skips(ctx, prog))
+    # unpacking rebuilds the document through the constructor gate: what pack accepted must pass it again - identifiers are told apart
+    # as whole DID URLs (C04's gate obligation, re-used)
+    import c04
+
+    def gate():
+        prog2, info2 = load(c04.CRATES, src_only=c04.SRC)
+        c04.run(ctx, prog2, only=r'^check_id_constraints/')
+    guarded(ctx, 'constructor gate (shared with C04)', 'M', gate)
